@@ -133,9 +133,17 @@ pub fn corpus_units(space: &Space, filter: Option<&dyn Fn(&gen::Template) -> boo
 }
 
 /// Width sweep: calls `f(width, out, same_as_previous_width)`.
-pub fn sweep(text: &str, cfg: &Cfg, tier: Tier, mut f: impl FnMut(usize, &FmtOut, bool) -> bool) {
+pub fn sweep(text: &str, cfg: &Cfg, tier: Tier, f: impl FnMut(usize, &FmtOut, bool) -> bool) {
+    sweep_where(text, cfg, tier, |_| true, f)
+}
+
+/// Like `sweep`, over the widths accepted by `keep`.
+pub fn sweep_where(text: &str, cfg: &Cfg, tier: Tier, keep: impl Fn(usize) -> bool, mut f: impl FnMut(usize, &FmtOut, bool) -> bool) {
     let mut prev: Option<(String, fmt::Status, usize)> = None;
     for w in widths_for(cfg, tier) {
+        if !keep(w) {
+            continue;
+        }
         let out = fmt::format(text, cfg, w);
         let same = match &prev {
             Some((t, s, n)) => *t == out.text && *s == out.status && *n == out.entries.len(),
